@@ -104,6 +104,53 @@ def doubling(g):
         g.check(f"PAC TO PAC TO {p_} {to}", res == [False, False, True, True] and r.last_command == "", {"skips": res, "last": r.last_command})
 
 
+def character_words(g):
+    """P-ground, complete over the three tables: what `_translate_characters`, `_translate_special_char` and
+    `_translate_extended_char` hand to the ACTIVE buffer - for every pair of basic-character bytes both characters, in order,
+    in one call (a pair with an unknown byte: nothing); for every special code its one character; for every extended code
+    first the replacement of the stand-in (`handle_backspace` with that code), then its one character - each exactly once,
+    and nothing is handed to another buffer."""
+    from pycaption.scc import SCCReader
+
+    class Rec:
+        def __init__(self, log, name):
+            self.log, self.name = log, name
+        def add_chars(self, *chars):
+            self.log.append((self.name, "add", chars))
+        def handle_backspace(self, word):
+            self.log.append((self.name, "bs", word))
+
+    def run(method, word, mode):
+        rd = SCCReader()
+        rd._reset_state() if hasattr(rd, "_reset_state") else None
+        log = []
+        for key in list(rd.buffer_dict.keys()):
+            dict.__setitem__(rd.buffer_dict, key, Rec(log, key))
+        rd.buffer_dict.active_key = mode
+        getattr(rd, method)(word)
+        return log
+    modes = ["pop", "paint", "roll"]
+    bad = []
+    keys = list(K.CHARACTERS)
+    for i, b1 in enumerate(keys):
+        for b2 in keys:
+            mode = modes[(i + len(b2) + int(b2, 16)) % 3]
+            log = run("_translate_characters", b1 + b2, mode)
+            if log != [(mode, "add", (K.CHARACTERS[b1], K.CHARACTERS[b2]))]:
+                bad.append((b1 + b2, log))
+    g.check(f"every pair of basic bytes ({len(keys)} x {len(keys)}): both characters, in order, once, to the active buffer", not bad, {"first": bad[:3]})
+    unknown = [b for b in ("00", "7f", "ff", "1f") if b not in K.CHARACTERS]
+    bad = [(u, k) for u in unknown for k in keys[:8] for w in (u + k, k + u) if run("_translate_characters", w, "pop")]
+    g.check("a pair with an unknown byte hands on nothing", not bad, {"first": bad[:3]})
+    for mode in modes:
+        bad = [(w, run("_translate_special_char", w, mode)) for w, ch in K.SPECIAL_CHARS.items()
+               if run("_translate_special_char", w, mode) != [(mode, "add", (ch,))]]
+        g.check(f"every special code hands on its one character once ({mode})", not bad, {"first": bad[:3]})
+        bad = [(w, run("_translate_extended_char", w, mode)) for w, ch in K.EXTENDED_CHARS.items()
+               if run("_translate_extended_char", w, mode) != [(mode, "bs", w), (mode, "add", (ch,))]]
+        g.check(f"every extended code replaces the stand-in, then hands on its one character ({mode})", not bad, {"first": bad[:3]})
+
+
 def backspace(g):
     """an extended character replaces the stand-in before it (unless that one is itself extended);
     94a1 deletes one character"""
@@ -524,6 +571,7 @@ def run(ctx):
                 "no stray break node, vertical position of each caption's own row", lambda b: bounded_consecutive_captions(ctx, b))
     ctx.ground("doubling", doubling)
     ctx.ground("backspace", backspace)
+    ctx.ground("character_words", character_words)
     P("scc._get_layout_from_tuple", layout_from_tuple, functions=[_get_layout_from_tuple])
     P("scc._PositioningTracker.update_positioning", tracker_transition, functions=[_PositioningTracker.update_positioning])
     from pycaption.scc.state_machines import DefaultProvidingPositionTracker as _DT
